@@ -88,29 +88,8 @@ func c12r1(w *World, rr *RuleRun) {
 			rr.At(w, site, "raw Store.Get invoked only inside the Wrapper", ok, "in "+shortFuncName(site.Parent()))
 		}
 	}
-	// the configured raw store is read only to build the wrapper
-	cfgStore := w.P.Field("", "ServerConfig", "Store")
+	w.checkRawStoreFlow(rr)
 	newWrapper := w.P.Func("bep44.NewWrapper")
-	for _, ld := range w.FieldReads(w.P.LibFuncs, cfgStore) {
-		v := ld.(ssa.Value)
-		ok := true
-		det := ""
-		for _, r := range *v.Referrers() {
-			switch x := r.(type) {
-			case *ssa.DebugRef:
-			case *ssa.BinOp: // nil test
-			case ssa.CallInstruction:
-				if x.Common().StaticCallee() != newWrapper {
-					ok = false
-					det = instrString(r)
-				}
-			default:
-				ok = false
-				det = instrString(r)
-			}
-		}
-		rr.At(w, ld, "ServerConfig.Store flows only into NewWrapper", ok, det)
-	}
 	// Wrapper.s written only by NewWrapper
 	ws := w.P.Field("bep44", "Wrapper", "s")
 	for _, st := range w.FieldWrites(w.P.LibFuncs, ws) {
@@ -425,7 +404,9 @@ func c12r5(w *World, rr *RuleRun) {
 									return false
 								}
 								l, r := t.Args[0], t.Args[1]
-								isSum := func(x *Term) bool { return x.Op == OpCall && strings.HasSuffix(x.Name, "sha1.Sum") && inner(x.String()) }
+								isSum := func(x *Term) bool {
+									return x.Op == OpCall && strings.HasSuffix(x.Name, "sha1.Sum") && inner(x.String())
+								}
 								isTarget := func(x *Term) bool { return strings.HasPrefix(x.String(), "target") }
 								return (isSum(l) && isTarget(r)) || (isSum(r) && isTarget(l))
 							})
@@ -433,7 +414,9 @@ func c12r5(w *World, rr *RuleRun) {
 						if hashEq(func(s string) bool { return !strings.Contains(s, "append") && strings.Contains(s, ".V") }) {
 							return true, "sha1(v) == target"
 						}
-						keyOK := hashEq(func(s string) bool { return strings.Contains(s, "append") && strings.Contains(s, ".K") && strings.Contains(s, "salt") })
+						keyOK := hashEq(func(s string) bool {
+							return strings.Contains(s, "append") && strings.Contains(s, ".K") && strings.Contains(s, "salt")
+						})
 						verOK := alt.Has("b", true, func(t *Term) bool {
 							return isCall(t, a.verify) && len(t.Args) == 5 && strings.Contains(t.Args[0].String(), ".K") && strings.HasPrefix(t.Args[1].String(), "salt") &&
 								strings.Contains(t.Args[2].String(), ".Seq") && strings.Contains(t.Args[3].String(), ".V") && strings.Contains(t.Args[4].String(), ".Sig")
@@ -469,4 +452,32 @@ func allAnon(f *ssa.Function) []*ssa.Function {
 		out = append(out, allAnon(a)...)
 	}
 	return out
+}
+
+// checkRawStoreFlow: the configured raw store is read only to build the wrapper, so every served
+// item passes the wrapper's expiry and validity checks (shared by C12.1 and C13.6).
+func (w *World) checkRawStoreFlow(rr *RuleRun) {
+	// the configured raw store is read only to build the wrapper
+	cfgStore := w.P.Field("", "ServerConfig", "Store")
+	newWrapper := w.P.Func("bep44.NewWrapper")
+	for _, ld := range w.FieldReads(w.P.LibFuncs, cfgStore) {
+		v := ld.(ssa.Value)
+		ok := true
+		det := ""
+		for _, r := range *v.Referrers() {
+			switch x := r.(type) {
+			case *ssa.DebugRef:
+			case *ssa.BinOp: // nil test
+			case ssa.CallInstruction:
+				if x.Common().StaticCallee() != newWrapper {
+					ok = false
+					det = instrString(r)
+				}
+			default:
+				ok = false
+				det = instrString(r)
+			}
+		}
+		rr.At(w, ld, "ServerConfig.Store flows only into NewWrapper", ok, det)
+	}
 }
